@@ -441,8 +441,9 @@ def deep_strings(rng, tier, deep):
                 out.append("".join(t))
     toks = ["<A>", "<B>", "</A>", "</B>", "x", " ", "\n", "<![CDATA[", "]]>", "<![CDATA[y]]>", "<A B>", "<a>", "<A/>", "]", "<", ">", "</C>", "y z"]
     n_tok = 4 if tier == "thorough" else 3
+    base = toks if (deep or tier == "thorough") else toks[:14]
     for l in range(1, n_tok + 1):
-        for t in itertools.product(toks, repeat=l):
+        for t in itertools.product(base, repeat=l):
             out.append("".join(t))
     extra = 400000 if tier == "thorough" else (60000 if deep else 5000)
     for _ in range(extra):
